@@ -77,12 +77,17 @@ theorem gen_fpm_sign_conj :
     fpmBackSign = 1 ∧ fpmBackConjMaskIffComplex = true ∧ fpmBackWired = true ∧ fpmFwdWired = true := by
   decide
 
-/-- `babinet_backprop` returns `cbar − B(cbar)` with `cbar = conj(L)·ȳ` and the same `1 − fpm` mask as the forward -/
-theorem gen_babinet :
+/-- `babinet_backprop` returns `cbar − B(cbar)` with the same `1 − fpm` mask and call arguments as the forward; what it hands to the
+mask-and-back adjoint (`cbar`, obtained by symbolic execution of the body under each kind of Lyot stop, so if/else and default-then-override
+give the same term) is the upstream gradient itself without a stop, `ȳ·L` for a real stop and `ȳ·conj(L)` for a complex one -/
+theorem gen_babinet {C : Type} [Field C] (conj : C → C) (d L : C) :
     babinetBackCoef * fpmBackSign = -1 ∧ babinetMaskIsOneMinusInBoth = true ∧
-    babinetFwdIsLyotTimesDataMinusField = true ∧ babinetBackConjLyotIffComplex = true ∧
-    babinetBackSameCallArgs = true := by
-  decide
+    babinetFwdIsLyotTimesDataMinusField = true ∧ babinetBackSameCallArgs = true ∧
+    babinetBackCbarNone conj d L = d ∧ babinetBackCbarReal conj d L = d * L ∧ babinetBackCbarComplex conj d L = d * conj L := by
+  refine ⟨by decide, by decide, by decide, by decide, ?_, ?_, ?_⟩
+  · first | rfl | (simp only [babinetBackCbarNone]; push_cast; ring)
+  · first | rfl | (simp only [babinetBackCbarReal]; push_cast; ring)
+  · first | rfl | (simp only [babinetBackCbarComplex]; push_cast; ring)
 
 section
 variable {K : Type} [Field K]
@@ -105,12 +110,12 @@ theorem gen_nll (lg : K → K) (n : Nat) (y yhat : Nat → K) :
 theorem gen_tanh (ex : K → K) (a x0 y0 x : K) :
     tanhFwd ex a x0 y0 x = Model.C06.tanhFwd ex a x0 y0 x ∧ tanhBack ex a x0 y0 x = Model.C06.tanhBack ex a x0 y0 x := by
   refine ⟨rfl, ?_⟩
-  simp only [tanhBack, tanhFwd, Model.C06.tanhBack, Model.C06.tanhFwd, Num.npow, ofInt_eq]; push_cast; ring
+  simp only [tanhBack, tanhFwd, Model.C06.tanhBack, Model.C06.tanhFwd, Num.npow, ofInt_eq] <;> (push_cast; ring)
 
 theorem gen_arctan (atn : K → K) (a x0 y0 x : K) :
     arctanFwd atn a x0 y0 x = Model.C06.arctanFwd atn a x0 y0 x ∧ arctanBack atn a x0 y0 x = Model.C06.arctanBack a x0 x := by
   refine ⟨rfl, ?_⟩
-  simp only [arctanBack, Model.C06.arctanBack, Num.npow, ofInt_eq]; push_cast; ring
+  simp only [arctanBack, Model.C06.arctanBack, Num.npow, ofInt_eq] <;> (push_cast; ring)
 
 theorem gen_softplus (ex lg : K → K) (a x0 y0 x : K) :
     softplusFwd ex lg a x0 y0 x = Model.C06.softplusFwd ex lg a x0 y0 x ∧
@@ -158,7 +163,7 @@ theorem gen_wavefront (Ibar k : K) (E gbar g : Cx K) :
 
 /-- the wavenumber the backprop multiplies by is the one in the forward's exponent (`exp(i·k·φ)`), both translated -/
 theorem gen_phase_wavenumber (pi wavelength : K) : phaseBackK pi wavelength = phaseFwdK pi wavelength := by
-  simp only [phaseBackK, phaseFwdK, ofInt_eq]; push_cast; ring
+  simp only [phaseBackK, phaseFwdK, ofInt_eq] <;> (push_cast; ring)
 
 /-- `dft2_backprop` / `idft2_backprop` as TRANSLATED (matrix products, transposes, conjugates of the cached bases) are the
 model's `dftBack`, the forwards are the model's `dft2` / `idft2`, and both sides look their bases up under the same key once the
@@ -389,7 +394,7 @@ the translated cost whatever normalisation convention the source uses (1/n, 1/(2
 theorem mse_grad (n : Nat) (M D δ : Nat → K) (t : K) :
     mseCost n (fun i => M i + t * δ i) D
       = mseCost n M D + t * (∑ i ∈ range n, mseGrad n M D i * δ i) + t ^ 2 * mseCost n (fun i => D i + δ i) D := by
-  simp only [mseCost, mseGrad, sumTo_eq, ofInt_eq, Num.ofFrac, Num.npow]
+  simp only [mseCost, mseGrad, Model.C06.mseCost, Model.C06.mseGrad, sumTo_eq, ofInt_eq, Num.ofFrac, Num.npow]
   simp only [Finset.mul_sum, Finset.sum_mul, ← Finset.sum_add_distrib]
   refine Finset.sum_congr rfl fun i _ => ?_
   push_cast; ring
@@ -620,7 +625,7 @@ theorem phase_hasDerivAt (A pi wavelength φ0 : ℝ) (gbar : Cx ℝ) :
     have : Complex.I * (k : ℂ) * (φ0 : ℂ) = ((k * φ0 : ℝ) : ℂ) * Complex.I := by push_cast; ring
     rw [this, Complex.exp_mul_I, Complex.ofReal_cos, Complex.ofReal_sin]
   refine h3.congr_deriv ?_
-  simp only [Complex.reCLM_apply, e, phaseBack, toC, cx_mul_im, cx_conj_re, cx_conj_im]
+  simp only [Complex.reCLM_apply, e, phaseBack, Model.C06.phaseBack, toC, cx_mul_im, cx_conj_re, cx_conj_im]
   simp only [Complex.mul_re, Complex.mul_im, Complex.add_re, Complex.add_im, Complex.ofReal_re, Complex.ofReal_im,
     Complex.I_re, Complex.I_im, Complex.conj_re, Complex.conj_im]
   ring
@@ -844,7 +849,7 @@ theorem gen_mse_masked {K : Type} [Field K] (cnt n : Nat) (idx : Nat → Nat) (h
         + t ^ 2 * mseMaskedCost n cnt idx (fun i => D i + δ i) D := by
   simp only [mseMaskedCost, mseMaskedGrad]
   rw [← compress_scatter_adjoint' cnt n idx hidx]
-  simp only [Model.C06.compress, sumTo_eq, ofInt_eq, Finset.mul_sum, Finset.sum_mul, ← Finset.sum_add_distrib]
+  simp only [Model.C06.compress, Model.C06.mseCost, Model.C06.mseGrad, sumTo_eq, ofInt_eq, Finset.mul_sum, Finset.sum_mul, ← Finset.sum_add_distrib]
   refine Finset.sum_congr rfl fun k _ => ?_
   push_cast; ring
 
